@@ -4,6 +4,8 @@
 From Cooler Require Import Model.H5.
 From Coq Require Import Lia.
 Module S := Coq.Strings.String.
+(* never let simpl/cbn unfold a 64-step traversal *)
+Global Opaque FUEL VISIT_FUEL.
 
 (* ------------------------------------------------------------------ association lists *)
 Lemma eqb_refl' : forall n, S.eqb n n = true.
